@@ -53,7 +53,7 @@ CHECKS = {
  "C15": dict(cat="fault_enumeration", tech="exhaustive enumeration of old-leader histories with a stop (crash) after every prefix, followed by a take-over through the real lock and the production OnStartedLeading code; storage scan oracle",
    text="Every old-leader history up to depth 3-4 over a 10-operation alphabet (incl. 1/10/100 failed writes and lock renewals) on memkv, badger and tikv-mock with a fresh database each, the new leader being either a node started afterwards or a standby that polled the lock and served follower reads during the old term; the new leader's first revisions must exceed every stored revision, guarded writes must work and List must be complete.",
    ref="4/C15"),
- "C16": dict(cat="model_checking", tech="explicit-state BFS over Kubernetes-shaped transaction histories through the real etcd RPC server against an etcd reference model, plus exhaustive enumeration of a transaction grammar (~21 000 shapes x 3 store states)",
+ "C16": dict(cat="model_checking", tech="explicit-state BFS over Kubernetes-shaped transaction histories through the real etcd RPC server against an etcd reference model, plus exhaustive enumeration of a transaction grammar (~21 000 shapes x 3 store states); plus preemption-bounded schedule exploration of a watch opened at a past revision against concurrent updates",
    text="Every history up to the stated depth of the four Kubernetes shapes on 3 prefix-related keys is executed through RPCServer.Txn/Range/Watch and compared field by field with etcd semantics; every shape of the grammar must either be one of the four shapes on one key or be rejected with an error and leave the store byte-identical.",
    ref="4/C16"),
  "C17": dict(cat="model_checking", tech="exhaustive enumeration of histories mixing Event / non-Event / look-alike keys, compactions and virtual-clock advances around the TTL, on engines with and without native TTL; versioned-map model with an 'may be wholly gone after TTL' rule; plus preemption-bounded schedule exploration of expiry against a writer of the Event",
